@@ -1,11 +1,15 @@
 #!/usr/bin/env python3
-"""store_seeded.py <src out dir> <round tag> <matrix file>: copy confirmed seeded changes to /verif/seeded/<Cxx>-<tag><n>/"""
+"""store_seeded.py <src out dir> <round tag> <matrix file> [first-contact matrix file]: copy confirmed seeded changes to /verif/seeded/<Cxx>-<tag><n>/"""
 import json,sys,os,shutil,re,glob
 src,tag,matrix=sys.argv[1:4]
-caught={}
-for l in open(matrix):
-    m=re.match(r'(C\d+)/patch(\d): (\w+) \[(.*)\]',l)
-    if m: caught[(m.group(1),int(m.group(2)))]=(m.group(3),m.group(4).split())
+def readm(f):
+    out={}
+    for l in open(f):
+        m=re.match(r'(C\d+)/patch(\d): (\w+) \[(.*)\]',l)
+        if m: out[(m.group(1),int(m.group(2)))]=(m.group(3),m.group(4).split())
+    return out
+caught=readm(matrix)
+first=readm(sys.argv[4]) if len(sys.argv)>4 else {}
 n=0
 for conf in sorted(glob.glob(f'{src}/C*/confirm*.json')):
     c=json.load(open(conf))
@@ -17,9 +21,13 @@ for conf in sorted(glob.glob(f'{src}/C*/confirm*.json')):
     dd=f'{src}/{id}/demo{k}'
     if os.path.isdir(dd):
         shutil.copytree(dd,f'{d}/demo',ignore=shutil.ignore_patterns('*.test','out.txt'))
-        gm=f'{d}/demo/go.mod'
-        if os.path.exists(gm):
-            t=open(gm).read(); t=re.sub(r'/tmp/wt2?/[A-Za-z0-9_]+','/REPO_SCRATCH_WORKTREE',t); open(gm,'w').write(t)
+        for root,_,files in os.walk(f'{d}/demo'):
+            for fn in files:
+                fp=os.path.join(root,fn)
+                try: t=open(fp).read()
+                except Exception: continue
+                t2=re.sub(r'/tmp/wt[0-9]*/(?!out\b)[A-Za-z0-9_]+','/REPO_SCRATCH_WORKTREE',t)
+                if t2!=t: open(fp,'w').write(t2)
     meta={}
     try: meta=json.load(open(f'{src}/{id}/meta{k}.json'))
     except Exception as e: meta={'note':'agent meta unreadable: '+str(e)}
@@ -28,6 +36,9 @@ for conf in sorted(glob.glob(f'{src}/C*/confirm*.json')):
       'confirmed_by_me':{'suite_passes_with_patch':c['suite_passes_with_patch'],'demo_exit_without_patch':c['demo_exit_without_patch'],'demo_exit_with_patch':c['demo_exit_with_patch'],
          'what_i_ran':'tools/confirm_seeded.sh: in a scratch worktree of /repo HEAD: demo `go test ./...` without the patch (exit 0 required), `git apply patch.diff`, `go build ./... && go test -vet=off -count=1 ./...` in ., v2, cmd (all pass required), demo again (non-zero required), `git checkout -- .`; demo go.mod replace paths must be pointed at the scratch worktree (/REPO_SCRATCH_WORKTREE placeholder)'},
       'detected_by_checks':props,'detected_by_own_property_check': how=='own'})
+    if (id,k) in first:
+        fh,fp_=first[(id,k)]
+        meta['first_contact']={'note':'result of the checks as they were BEFORE this change was seen','detected_by_checks':fp_,'detected_by_own_property_check':fh=='own'}
     json.dump(meta,open(f'{d}/meta.json','w'),indent=1)
     n+=1
 print('stored',n)
